@@ -8,6 +8,7 @@ import (
 	"fmt"
 	"math"
 	"net/netip"
+	"reflect"
 	"time"
 
 	"github.com/ClickHouse/ch-go/proto"
@@ -38,6 +39,41 @@ func (n *node[T]) T() *ref.Type      { return n.t }
 func (n *node[T]) Append(v ref.Val)  { n.col.Append(n.to(v)) }
 func (n *node[T]) Get(i int) ref.Val { return n.from(n.col.Row(i)) }
 func (n *node[T]) Kind() string      { return n.kind }
+
+// Setter is implemented by columns whose rows can be overwritten in place through the exported
+// memory of the library column (slice-typed columns, the Values of LowCardinality and Enum), i.e.
+// without Reset and without changing the row count.
+type Setter interface {
+	Set(i int, v ref.Val) bool
+}
+
+func (n *node[T]) Set(i int, v ref.Val) (ok bool) {
+	defer func() {
+		if recover() != nil {
+			ok = false
+		}
+	}()
+	x := reflect.ValueOf(n.to(v))
+	cv := reflect.ValueOf(n.col)
+	if cv.Kind() != reflect.Pointer {
+		return false
+	}
+	e := cv.Elem()
+	switch e.Kind() {
+	case reflect.Slice:
+		if e.Type().Elem() == x.Type() && i < e.Len() {
+			e.Index(i).Set(x)
+			return true
+		}
+	case reflect.Struct:
+		f := e.FieldByName("Values")
+		if f.IsValid() && f.CanSet() && f.Kind() == reflect.Slice && f.Type().Elem() == x.Type() && i < f.Len() {
+			f.Index(i).Set(x)
+			return true
+		}
+	}
+	return false
+}
 
 func mustType(s string) *ref.Type {
 	t, err := ref.ParseType(s)
